@@ -67,7 +67,8 @@ s = s[:a] + ("## Results\n\nCheck id = property id of the check in `/verif/check
              "Round 1: %d of %d seeds are caught by at least one check.\n\n" % (caught[1], len(rows[1]))) + HDR + "\n".join(rows[1]) + "\n"
 if rows[2]:
     s += ("\n## Round 2\n\nA second, independent set of %d changes, written to differ in site and mechanism from round 1 (the authors were "
-          "given one-line summaries of the two round-1 changes of their property).  %d of %d are caught by at least one check.  Side "
+          "given one-line summaries of the two round-1 changes of their property).  %d of %d are caught by at least one check in the quick tier "
+          "(C20-4 by the thorough tier only, see DESIGN.md 10.5b).  Side "
           "observation of the C03 round-2 author, confirmed and repaired: compiling `/(a)(?P<1>b)/` inside a decorator was "
           "nondeterministic (fix eca4fb46 in /repo).\n\n" % (len(rows[2]), caught[2], len(rows[2]))) + HDR + "\n".join(rows[2]) + "\n"
 open(p, "w").write(s)
